@@ -103,7 +103,14 @@ fn compute_must(w: &mut World) {
                         Md::Edge => ready && c.edge_pending,
                     };
                 }
-                any.then_some("fd ready for a requested interest")
+                let due = s.is_timer() && matches!(&s.arm, Some(a) if !a.fired && a.hi <= now);
+                if any {
+                    Some("fd ready for a requested interest")
+                } else if due {
+                    Some("deadline passed")
+                } else {
+                    None
+                }
             }
             Kind::Exec => tasks_runnable.contains(&s.uid).then_some("runnable task"),
             Kind::Stream => match &s.stream {
